@@ -24,3 +24,12 @@ pub fn vx_assert_or_diverge(c: bool)
 // canaries of must-panic variants: body replaced by an arbitrary return value; must be rejected.
 #[verifier::external_body]
 pub fn vx_any<T>() -> T { unimplemented!() }
+
+// R1c prefix: stands for the statements after the cut point of a function of which only a prefix is under contract
+#[verifier::external_body]
+pub fn vx_rest_of_body_not_under_contract<T>() -> T { unimplemented!() }
+
+// R5: `RefCell<Option<T>>::take()` (= mem::take; Option's Default is None) on an erased cell
+pub fn vx_take<T>(o: &mut Option<T>) -> (r: Option<T>)
+    ensures r == *old(o), *final(o) is None,
+{ o.take() }
